@@ -64,7 +64,8 @@ CHECKS = {
             "sequences across NAK-timer expiries; exactness on timer-driven re-issues, sandwich inclusion on the first sequence", "5 C06", "refinement vs IntervalSet model"),
     "C16": ("every tape of the fault-free / bounded-fault / cancel populations executed over NativeFilestore and over an in-memory "
             "filestore: host file-system entry points audited during every handler API call, traces of the two executions "
-            "compared, host sandbox compared before / after the in-memory run", "5 C16", "syscall audit + twin-run differential"),
+            "compared, host sandbox compared before / after the in-memory run; the harness's filestore objects are falsy when idle; in a quarter "
+            "of the runs the filestore object is re-mounted on the users after the handlers were built (tripwire on the old object)", "5 C16, 12", "syscall audit + twin-run differential"),
     "C17": ("operation histories on the real NativeFilestore in a tmpfs sandbox (payloads up to 6 KB, offsets up to 70 KB) judged after every operation against a dict-based "
             "file-system model (status code / data / exception, whole tree and contents); separate population with OSErrors "
             "injected at the k-th host access of an operation: never success, tree unchanged", "5 C17", "refinement vs FsModel + storage fault injection"),
@@ -76,7 +77,8 @@ CHECKS = {
             "around the live progress / file size, valid and invalid) judged per call: emitted File Data PDUs tile the valid "
             "requests exactly (multiset equality), Metadata byte-identical for (0,0), invalid requests raise the library NAK "
             "error and emit nothing outside valid requests or the file; SenderStream model checks that the original stream and "
-            "the EOF are unchanged afterwards", "5 C08", "per-call refinement + stream model"),
+            "the EOF are unchanged afterwards; files up to 520 segments with NAKs for everything sent so far; an early Finished PDU carrying the "
+            "peer's own CRC / large-file flag", "5 C08, 12", "per-call refinement + stream model"),
     "C15": ("indication model judged on every handler call in six populations (fault-free incl. preludes, bounded-fault, cancel, chaos, silent peer, "
             "synthetic peer); 2^4 switches per entity and 7 message-list variants; receiver order, Finished PDU vs indication, transaction ids of "
             "indications vs PDUs", "5 C15, 12", "in-situ invariant vs IndicationModel"),
